@@ -310,11 +310,13 @@ pub fn case_in_cell(cell: Cell, force: Force, mask: Option<u8>) -> BoxedStrategy
                 None => length(cell, force.version, min_len),
             };
             let warm = proto.warm.clone();
+            let resend = proto.resend;
             let pred = proto.pred;
             let opts = opts.clone();
             len.prop_flat_map(move |len| payload(cell.mode, len, !force.mode)).prop_map(move |(input, fam)| {
                 let mut bc = BuildCase::new(input, opts.clone());
                 bc.warm = warm.clone();
+                bc.resend = resend;
                 bc.pred = pred;
                 (bc, fam)
             })
